@@ -44,7 +44,9 @@ type cmapVec struct {
 func renderCMap(toks []model.Value, rng *rand.Rand) string {
 	var sb strings.Builder
 	sb.WriteString("%!PS-Adobe-3.0 Resource-CMap\n%%BeginResource: CMap (Test)\n")
-	seps := []string{" ", "\n", "\r\n", "  ", "\t", " % comment\n", "\n\n"}
+	// structured comments without a value at the start of a line, as the standard CMap
+	// files have them (%%EndComments, %%BeginData ...): what follows the line is code
+	seps := []string{" ", "\n", "\r\n", "  ", "\t", " % comment\n", "\n\n", "\n%%EndComments\n", "\n%%Page:\n\n", "\n%%BeginData\n"}
 	for i, t := range toks {
 		if i > 0 {
 			switch {
@@ -83,6 +85,13 @@ func renderCMap(toks []model.Value, rng *rand.Rand) string {
 		}
 	}
 	sb.WriteString("\n%%EndResource\n%%EOF\n")
+	// one end-of-line convention per file: LF, CR LF or bare CR (all three are PostScript line ends)
+	switch rng.Intn(4) {
+	case 0:
+		return strings.ReplaceAll(strings.ReplaceAll(sb.String(), "\r\n", "\n"), "\n", "\r")
+	case 1:
+		return strings.ReplaceAll(strings.ReplaceAll(sb.String(), "\r\n", "\n"), "\n", "\r\n")
+	}
 	return sb.String()
 }
 
